@@ -7,6 +7,7 @@
 import GormModel.Lemmas.Bind
 import GormModel.Lemmas.BindAligned
 import GormModel.Lemmas.BindRetemplate
+import GormModel.Model.BindJoin
 import GormModel.Gen.Misc
 import GormModel.Gen.BindSites
 namespace Gorm
@@ -232,6 +233,30 @@ theorem C01_dollar_literal_counterexample :
       st.vars.map Val.payload? = [some "o", some "7"] ∧ ¬ WellFormed .dollar sub ∧
       String.ofList (concretize .dollar (render .dollar (Val.whereC [.expr "id IN (?)".toList [sub] false])).segs)
         = "id IN (SELECT id FROM t WHERE label = '$100' AND age > $1)" := by
+  decide
+
+/-- **relation-join ON handles** (callbacks/query.go genJoinClause, model `joinOnExpr`): the ON conditions are rendered
+    on a private statement, re-templated by the same textual loop and re-bound as `clause.Expr{SQL: onSQL, Vars: vars}`.
+    For well-formed conditions the private rendering is aligned (`C01_aligned`), so under `$n` the loop is exact
+    (`C01_retemplate`): the re-bound expression carries the SAME text with `?` for every placeholder, and the privately
+    bound values in order — for any number of values (`$1`/`$10` prefixes included). -/
+theorem C01_join_on_retemplate {β : Type} (on : List (Val β)) (hwf : WellFormed .dollar (.whereC on))
+    (hnd : NoDollar (render .dollar (.whereC on)).segs) :
+    joinOnExpr .dollar on =
+      (if (concretize .dollar (render .dollar (.whereC on)).segs).isEmpty then none
+       else some (.expr (concretize .qmark (render .dollar (.whereC on)).segs) (render .dollar (.whereC on)).vars false)) := by
+  have hal : phs (render .dollar (Val.whereC on)).segs = List.range' 1 (render .dollar (Val.whereC on)).vars.length :=
+    C01_aligned .dollar (.whereC on) hwf
+  simp only [joinOnExpr, C01_retemplate _ _ hnd hal]
+
+-- a join ON handle with 11 values under `$n`, after one outer SELECT value and before one outer WHERE value
+set_option maxRecDepth 16384 in
+example :
+    let on : List (Val String) := [.expr "Company.name <> ? AND Company.id IN ?".toList [.scalar "n", .list true ((List.range 10).map fun i => .scalar (toString i))] false]
+    let v := joinStmt .dollar (.expr "SELECT ? FROM u JOIN c".toList [.scalar "s"] false) [.cmp .eq (.column "u".toList "cid".toList [] false) (.column "c".toList "id".toList [] false)] on [.cmp .gt (.column [] "age".toList [] false) (.scalar "18")]
+    WellFormed .dollar v ∧ Aligned (render .dollar v) ∧ (render .dollar v).vars.length = 13 ∧
+    String.ofList (concretize .dollar (render .dollar v).segs)
+      = "SELECT $1 FROM u JOIN c ON `u`.`cid` = `c`.`id` AND (Company.name <> $2 AND Company.id IN ($3,$4,$5,$6,$7,$8,$9,$10,$11,$12)) WHERE `age` > $13" := by
   decide
 
 /-! ### non-vacuity of `WellFormed`, and what it excludes -/
